@@ -69,7 +69,7 @@ Section Summary.
     destruct (take_blob T hc (rs_table T st) [leaf]) as [b t'] eqn:Etb.
     pose proof (C01Build.take_blob_fst T hc _ _ _ _ Etb) as Hfst.
     assert (clock_ok teqb (rs_world T st)) as Hk by apply Hinv.
-    destruct (InvProofs.take_blob_ok T teqb hc _ _ _ _ _ Hk Htbl Etb) as [Hb _].
+    destruct (InvProofs.take_blob_ok T teqb hc teqb_spec _ _ _ _ _ Htbl Etb) as [Hb _].
     destruct b as [|[p a] b]; [discriminate|]. destruct b as [|x b]; [|discriminate].
     cbn in Hfst. injection Hfst as ->.
     apply InvProofs.blob_ok_cons in Hb as [Hok _].
